@@ -19,7 +19,11 @@ theorem step_inv (hmode : sys.mode = .byId) (hinv : Inv sys s) (t : Tid) : Inv s
       cases hl : lcLookup s.loaderCache th.ty with
       | some r => exact inv_idle_hit hinv hth hp hl
       | none => exact inv_idle_miss hinv hth hp
-    | put => exact inv_put hinv hth hp
+    | put =>
+      simp only
+      split
+      · exact inv_raise hinv hth hp
+      · exact inv_put hinv hth hp
     | call r => exact inv_call hinv hth hp
     | done => exact hinv
     | run pc sub =>
